@@ -445,11 +445,11 @@ def fam_args_all(sess):
     arguments: no argument reaches a panic. Paths that stop at an unmodelled library routine are noted, not counted as decided."""
     prog = sess.prog
     fam = 'args_all'
-    ex = sess.executor(unwind=10)
-    bad_args = ['x', '', '-1', '1.5', '99999999999999999999', 'NaN', '0', '-2147483648', '2020-13-45', '\u00e9']
+    ex = sess.executor(library_models(), unwind=24)
+    bad_args = ['x', '', '-1', '1.5', '99999999999999999999', 'NaN', '0', '-2147483648', '2020-13-45', '\u00e9', '%.99999999999k', '5']
     names = [v if isinstance(v, str) else v[0] for v in prog.src.variants('Function')]
     aggregates = {'Min', 'Max', 'Avg', 'Sum', 'Count', 'StdDevPop', 'StdDevSamp', 'VarPop', 'VarSamp'}
-    skip = aggregates | {'Random', 'CurrentUser', 'CurrentGroup', 'CurrentUid', 'CurrentGid', 'CurrentDate', 'Contains', 'HasXattr', 'Xattr', 'HasCapabilities', 'HasCapability'}
+    skip = aggregates | {'CurrentUser', 'CurrentGroup', 'CurrentUid', 'CurrentGid', 'CurrentDate', 'Contains', 'HasXattr', 'Xattr', 'HasCapabilities', 'HasCapability'}
     funcs = [n for n in names if n not in skip]
     sess.bounds[fam] = {'functions': funcs, 'arguments': bad_args, 'positions': 'first argument (no further arguments), second argument, third argument (first = 2 / abc)'}
     undecided = {}
@@ -489,6 +489,72 @@ def fam_args_all(sess):
     if not viol:
         sess.discharged('args_all: %d functions x 10 arguments x 3 positions: no argument reaches a panic (%d functions end in unmodelled library code: see notes)' % (
             len(funcs), len(undecided)), family=fam, queries=npaths[0])
+
+
+def library_models():
+    """third-party routines the scalar functions hand their argument to, by documented contract (incl. the documented panics)"""
+    from drivers import c13
+    from mirsym.core import Panic, Agg
+    from mirsym.models_fmt import OpaqueStr
+    import base64 as _b64
+
+    def pds(ctx, args, callee):
+        if ctx.decide(ctx.fresh_bool('chrono_english_ok')):
+            return c13.ok(c13.DateC(ctx.fresh_bv('ce_day', 64) & 0xffff, c13.u32(0), c13.u32(0), c13.u32(0)))
+        return c13.err(Str('bad date'))
+
+    def random_range(ctx, args, callee):
+        rng = args[1]
+        lo, hi = rng.f[0], rng.f[1]
+        if not ctx.decide(lo < hi):
+            raise Panic('cannot sample empty range')          # documented: random_range panics if the range is empty
+        v = ctx.fresh_bv('random', 64)
+        ctx.assume(And(v >= lo, v < hi))
+        return v
+
+    def date_part(ctx, args, callee):
+        d = ctx.deref(args[0]); k = callee.rsplit('::', 1)[1]
+        day = z3.simplify(d.day) if hasattr(d, 'day') else None
+        if day is not None and z3.is_bv_value(day):
+            import datetime as _dt
+            dd = _dt.date(1970, 1, 1) + _dt.timedelta(days=day.as_signed_long())
+            if k == 'weekday':
+                return ('weekday', (dd.weekday() + 1) % 7)          # number_from_sunday - 1
+            return BitVecVal({'year': dd.year, 'month': dd.month, 'day': dd.day}[k], 32)
+        if k == 'weekday':
+            return ('weekday', None)
+        v = ctx.fresh_bv('date_' + k, 32)
+        return v
+
+    def weekday_num(ctx, args, callee):
+        w = args[0] if not isinstance(args[0], Ref) else ctx.deref(args[0])
+        if w[1] is None:
+            v = ctx.fresh_bv('dow', 32); ctx.assume(And(z3.UGE(v, BitVecVal(1, 32)), z3.ULE(v, BitVecVal(7, 32)))); return v
+        return BitVecVal(w[1] + 1, 32)
+
+    def b64enc(ctx, args, callee):
+        t = as_str(ctx, args[0])
+        if t.s is None:
+            return OpaqueStr('base64(%r)' % (t,))
+        return Str(_b64.b64encode(t.s.encode()).decode())
+
+    def b64dec(ctx, args, callee):
+        t = as_str(ctx, args[0])
+        if t.s is None:
+            raise Unmodelled('base64 decode of symbolic text')
+        try:
+            raw = _b64.b64decode(t.s.encode(), validate=True)
+        except Exception:
+            return err(UNIT)
+        return ok(Str(raw.decode('utf-8', 'replace')))
+    return ([(r'^parse_date_string$|^chrono_english::parse_date_string$', pds, 'chrono-english:parse_date_string (Ok(any instant) | Err; contract: does not panic)'),
+             (r'^<ThreadRng as Rng>::random_range$|^<.* as (rand::)?Rng>::random_range$', random_range, 'rand:random_range (documented: panics if the range is empty; otherwise some value of the range)'),
+             (r'^rand::rng$|^rng$', lambda ctx, a, c: 'RNG', 'rand::rng'),
+             (r'^<NaiveDateTime as Datelike>::(year|month|day|weekday)$', date_part, 'chrono:Datelike accessors'),
+             (r'^Weekday::number_from_sunday$|^chrono::Weekday::number_from_sunday$', weekday_num, 'chrono:Weekday::number_from_sunday'),
+             (r'^(rbase64::)?encode$', b64enc, 'rbase64::encode (standard alphabet)'), (r'^(rbase64::)?decode$', b64dec, 'rbase64::decode (Ok(bytes) | Err)'),
+             (r'^is_char_(japanese|hiragana|katakana|kana|kanji)$', lambda ctx, a, c: ctx.fresh_bool('wana_kana'), 'wana_kana:is_char_* (uninterpreted verdict per character)')]
+            + c13.concrete_chrono())
 
 
 def prog_sql_name(fname):
